@@ -780,7 +780,7 @@ pub mod toml_deser {
     ) -> Result<NickelValue, ParseError> {
         let doc: toml_edit::Document<_> = s
             .parse()
-            .map_err(|err| ParseError::from_toml(err, file_id))?;
+            .map_err(|err| ParseError::from_toml(err, file_id, s))?;
         check_floats(doc.as_item(), file_id)?;
         Ok(doc
             .as_item()
@@ -865,7 +865,7 @@ pub mod toml_deser {
     ) -> Result<Ast<'ast>, ParseError> {
         let doc: toml_edit::Document<_> = s
             .parse()
-            .map_err(|err| ParseError::from_toml(err, file_id))?;
+            .map_err(|err| ParseError::from_toml(err, file_id, s))?;
         check_floats(doc.as_item(), file_id)?;
         Ok(doc.as_item().to_ast(alloc, file_id))
     }
